@@ -71,7 +71,7 @@ class Contract:
 
 class LoopContract:
     def __init__(self, targets, invariant, modifies=(), decreases=None, index="_i", seq=None, heap_modifies=(),
-                 stepwise=(), match_assume=(), cell_types=None, stepwise_for=("0",), stepwise_ctx=(), step_ensures=()):
+                 stepwise=(), match_assume=(), cell_types=None, stepwise_for=("0",), stepwise_ctx=(), step_ensures=(), entry_ensures=()):
         self.targets = targets          # loop target names (fingerprint)
         self.invariant = list(invariant)  # clauses over locals + index var
         self.modifies = list(modifies)  # local names havoc'd (in addition to syntactically assigned)
@@ -85,6 +85,9 @@ class LoopContract:
         # re.sub loops: clauses proved at the end of every iteration over MATCH (the matched text), REPL (what the
         # callable returned for it) and the ghost call trace of that iteration
         self.step_ensures = list(step_ensures)
+        # clauses proved where the loop is entered, over the locals and the ghost call trace since the function (or the
+        # previous loop) began - not part of the invariant
+        self.entry_ensures = list(entry_ensures)
         self.cell_types = dict(cell_types or {})
 
 
